@@ -1,15 +1,22 @@
 #!/bin/bash
 # seedall.sh: runs every stored seeded change against the quick check of the property it
-# breaks (apply to /repo, check, revert) and prints a table. Exit 0 iff all are caught.
+# breaks (meta.json "check_with" names another check where the change really breaks that
+# property's clause; "expected": "not_caught" marks the changes DESIGN.md 9.5 explains) -
+# apply to /repo, check, revert - and prints a table. Exit 0 iff every result is as expected.
 cd "$(dirname "$0")"
 export VERIF_WATCHDOG_SECS="${VERIF_WATCHDOG_SECS:-20}"
 rc=0
-for d in seeded/*/; do
+for d in seeded/${1:-*}/; do
   n=$(basename "$d")
-  id=$(python3 -c "import json;print(json.load(open('$d/meta.json'))['breaks_property'])")
-  out=$(./seedtest.sh "$(pwd)/$d/patch.diff" "$id" 2>&1 | cut -c1-220)
-  echo "$n -> $out"
-  case "$out" in *caught*) ;; *) rc=1;; esac
+  id=$(python3 -c "import json;m=json.load(open('$d/meta.json'));print(m.get('check_with',m['breaks_property']))")
+  exp=$(python3 -c "import json;m=json.load(open('$d/meta.json'));print(m.get('expected','caught'))")
+  out=$(./seedtest.sh "$(pwd)/$d/patch.diff" $id 2>&1 | cut -c1-220)
+  echo "$n [$exp] -> $out"
+  case "$exp:$out" in
+    caught:*caught*) ;;
+    not_caught:*MISSED*) ;;
+    *) rc=1; echo "   ^^^ UNEXPECTED";;
+  esac
 done
 if [ -n "$(git -C /repo status --porcelain -- src)" ]; then echo "WARNING: /repo/src is dirty"; rc=2; fi
 exit $rc
